@@ -24,7 +24,7 @@ Ep0 == LET a == Attach(Clr(NewEndpoint(1, 1)), "KEEP")
                      f |-> [Frame("LOGON", 1) EXCEPT !.seq = 1] @@ [hdr |-> "ok"]], {})
 
 HF(kind, rel, trid) == [RF(kind, rel, FALSE) EXCEPT !.trid = trid]
-PeerFrames == { HF("HB", 0, ""), HF("HB", 0, "match"), HF("HB", 0, "wrong"), HF("TR", 0, "T1"),
+PeerFrames == { HF("HB", 0, ""), HF("HB", 0, "match"), HF("HB", 0, "wrong"), HF("HB", 0, "wronghi"), HF("HB", 0, "wrongtxt"), HF("TR", 0, "T1"),
                 HF("HB", 1, "match"), HF("APP", 0, "") }
 
 Init == /\ ep = Ep0 /\ now = T0 /\ hist = <<>> /\ narr = 0 /\ arrived = FALSE
